@@ -220,6 +220,47 @@ def run(ctx):
                 ctx.disagree('read_packet (%s)' % sname, line[:300], m[:300], got[:300])
     finally:
         C.select = saved_select
+    # ---- the same stream through the REAL networking thread: a session in which compression and the
+    # cipher are switched on mid-stream (login) and the server's next frames are already readable in the
+    # same read batch; every frame the stand-in server sent must be delivered, in order
+    import simnet
+    from refserver import RefServer
+    import refcodec as rc_
+    from minecraft.networking import packets as P_
+    for trial in range(ctx.scale(16, 160)):
+        enc_on, thr = trial % 2 == 0, [None, 0, 64, 300][trial // 2 % 4]
+        script = []
+        if trial % 4 < 2 and thr is not None:
+            script.append(('compress', thr))
+        if enc_on:
+            script.append(('encrypt', '-', b'tk%d' % trial))
+        if trial % 4 >= 2 and thr is not None:
+            script.append(('compress', thr))
+        script.append(('success',))
+        sent_ids = []
+        for _ in range(rng.randrange(1, 12)):
+            pid = rng.choice([0x7E, 0x7F, 0x6F, 300])        # ids no packet class of 757 uses: generic packets
+            body = bytes(rng.randrange(256) for _ in range(rng.choice([0, 1, 7, 63, 64, 65, 400])))
+            script.append(('raw', pid, body))
+            sent_ids.append(pid)
+        cfg = {'version': 757, 'script': script, 'rsa': '1024'}
+        if trial % 3 == 0:
+            import random
+            cfg['stream_rng'] = random.Random(rng.getrandbits(32))
+        seen, errs = [], []
+        with simnet.Net(lambda s_: RefServer(s_, cfg)) as net:
+            conn = C.Connection('h', 1, username='u', allowed_versions={757}, handle_exception=lambda e, i: errs.append(repr(e)))
+            conn.register_packet_listener(lambda p: seen.append(p.id) if type(p) is P_.Packet else None, P_.Packet)
+            conn.connect()
+            net.run_threads()
+        ctx.case(('session', trial, tuple(s_[0] for s_ in script[:4]), tuple(sent_ids)),
+                 sample={'op': 'session', 'script': [s_[0] for s_ in script[:4]], 'frames': len(sent_ids)})
+        ctx.count('session.' + ('enc' if enc_on else 'plain') + ('+comp' if thr is not None else ''))
+        if seen != sent_ids or errs:
+            ctx.violation('login %r then %d frames in the same stream: delivered ids %r, sent %r, errors %r'
+                          % ([s_[0] for s_ in script if s_[0] in ('compress', 'encrypt')], len(sent_ids), seen[:12], sent_ids[:12], errs[:1]),
+                          {'script': [s_[0] for s_ in script], 'threshold': thr, 'encrypted': enc_on},
+                          key={'kind': 'session', 'script': [s_[0] for s_ in script], 'thr': thr, 'ids': sent_ids})
 
 
 def pkts_by_pos(pkts, k):
